@@ -671,6 +671,10 @@ class Exec:
         S = self.S
         has = self.w.ufun(f"hasattr__{name}", S.Py, z3.BoolSort())
         val = self.w.ufun(f"attr__{name}", S.Py, S.Py)
+        if name == "_fields" and "all_str" in self.w.specs:
+            # TRUSTED library fact: the `_fields` of a named-tuple class is a tuple of strings
+            self.assume(z3.Implies(has(v.t), z3.And(
+                self.P.is_PTuple(val(v.t)), self.w.specs["all_str"].f(self.P.titems(val(v.t))))))
         if has_default:
             return Z(z3.If(has(v.t), val(v.t), self.to_py(default)))
         self.oblige("safety", f"AttributeError:.{name}", has(v.t), line)
@@ -978,6 +982,11 @@ class Exec:
             if s == self.S.Py:
                 if name in ("lower", "strip", "format") and self.known_class(v) == "PStr":
                     # a str method that shares its name with a node field (Slice.lower)
+                    return Bound(v, name)
+                if name in ("keys", "values") and not self.spec_mode and \
+                        self.known_class(v) not in self.S.classes and \
+                        self.entails(self.P.is_PDict(v.t)):
+                    # a dict method that shares its name with a node field (Dict.keys)
                     return Bound(v, name)
                 if name in self.S.owners or name.startswith("_") or name == "empty":
                     return self.get_field(v, name, line)
@@ -1400,7 +1409,11 @@ class Exec:
         raise Unsupported("non-empty dict literal")
 
     def ev_DictComp(self, e, env):
-        raise Unsupported("dict comprehension")
+        from . import loops
+        r = loops.run_dict_comprehension(self, e, env)
+        if r is None:
+            raise Unsupported("dict comprehension without a sidecar invariant (dictcomps)")
+        return r
 
     def comprehension(self, e, env):
         if len(e.generators) != 1:
